@@ -105,17 +105,17 @@ Schedulable(p) == ResolveAction(job, waitList, p, FALSE) \in {"replace", "queue"
 GraphBad(jb, j) == VerTable[jb[j].ver].cyclic \/ jb[j].bad = "reserved"
 GraphErr(jb, j) == IF jb[j].bad = "reserved" THEN "reserved" ELSE "cycle"
 
-\* startJob(job): refused if canceled; graph error => canceled + LastError (and a nested dequeue,
-\* folded into the recursion of Dequeue); else started with a fresh scheduler goroutine
+\* startJob(job): refused if canceled; graph error => canceled + LastError and startJobsOnWaitList (re-entrant);
+\* else started with a fresh scheduler goroutine.
+\* startJobsOnWaitList(pipeline), with the semantics of the repaired code: the popped list is what a nested call sees,
+\* the head starts iff it has no pending timer and a slot is free
+RECURSIVE StartJ(_, _), Dequeue(_, _)
 StartJ(S, j) ==
   IF S.job[j].canceled THEN S
   ELSE IF GraphBad(S.job, j)
-       THEN [S EXCEPT !.job[j].canceled = TRUE, !.job[j].lastErr = GraphErr(S.job, j)]
+       THEN Dequeue([S EXCEPT !.job[j].canceled = TRUE, !.job[j].lastErr = GraphErr(S.job, j)], S.job[j].p)
        ELSE [S EXCEPT !.job[j].started = TRUE, !.job[j].startEl = S.job[j].el, !.sched[j].pc = "fresh"]
 
-\* startJobsOnWaitList(pipeline), with the semantics of the repaired code: the popped list is
-\* what a nested call sees, the head starts iff it has no pending timer and a slot is free
-RECURSIVE Dequeue(_, _)
 Dequeue(S, p) ==
   IF S.wl[p] = <<>> THEN S
   ELSE LET h == Head(S.wl[p]) IN
